@@ -152,5 +152,27 @@ def task_thermo_bookkeeping(ctx):
     C11._run_config(ctx, True, (False, True, False), True, True, False)
 
 
-TASKS_QUICK = ["verlet", "reversibility", "momentum", "kinetic", "thermo_bookkeeping"]
+def task_thermo_with_velocity_scaling(ctx):
+    """O5 with run(..., scale_vel=(freq, T)): the values written are those of the velocities AFTER the scaling of that step."""
+    from contracts import C11_cadence as C11
+
+    C11._run_config(ctx, True, (False, True, False), False, True, False, run_kwargs={"scale_vel": lambda: (integer("scale_freq"), real("T_target"))})
+    ctx.assume_note("scale_freq > 0 is a precondition of run (modulo by it)")
+
+
+def task_thermo_with_energy_shift(ctx):
+    """O5 with control_energy_shift=True."""
+    from contracts import C11_cadence as C11
+
+    C11._run_config(ctx, True, (False, True, False), False, True, False, run_kwargs={"control_energy_shift": True})
+
+
+def task_thermo_with_com_removal(ctx):
+    """O5 with periodic centre-of-mass removal (stride symbolic)."""
+    from contracts import C11_cadence as C11
+
+    C11._run_config(ctx, True, (False, True, False), False, True, False, remove_com=("linear", integer("com_stride")))
+
+
+TASKS_QUICK = ["verlet", "reversibility", "momentum", "kinetic", "thermo_bookkeeping", "thermo_with_velocity_scaling", "thermo_with_energy_shift", "thermo_with_com_removal"]
 TASKS_THOROUGH = TASKS_QUICK
